@@ -20,10 +20,10 @@ use gluon_base::ast::{self, Expr, Literal, Pattern, PatternField, SpannedExpr, S
 use gluon_base::fnv::FnvMap;
 use gluon_base::kind::{ArcKind, Kind, KindEnv};
 use gluon_base::metadata::{Metadata, MetadataEnv};
-use gluon_base::pos::{BytePos, Span};
+use gluon_base::pos::{BytePos, HasSpan, Span};
 use gluon_base::resolve;
 use gluon_base::symbol::{Symbol, SymbolModule, SymbolRef, Symbols};
-use gluon_base::types::{Alias, ArcType, KindedIdent, NullInterner, PrimitiveEnv, Type, TypeCache, TypeEnv, TypeExt};
+use gluon_base::types::{Alias, ArcType, Field, NullInterner, PrimitiveEnv, Type, TypeCache, TypeEnv, TypeExt};
 use gluon_completion as completion;
 use gvh::out::{Args, Hist, fnv};
 use gvh::rng::Rng;
@@ -42,7 +42,11 @@ struct Env {
 impl Env {
     fn new(symbols: &mut Symbols) -> Env {
         let bool_sym = symbols.simple_symbol("Bool");
-        let bool_ty: ArcType = Type::app(Type::ident(KindedIdent::new(bool_sym.clone())), std::iter::empty().collect());
+        // a proper variant (the self-referential `Bool = Bool` of the test-suite's MockEnv makes
+        // resolve::remove_aliases spin when a Bool is applied like a function)
+        let false_sym = symbols.simple_symbol("False");
+        let true_sym = symbols.simple_symbol("True");
+        let bool_ty: ArcType = Type::variant(vec![Field::ctor(false_sym, Vec::<ArcType>::new()), Field::ctor(true_sym, Vec::<ArcType>::new())]);
         Env { bool_alias: Alias::new(bool_sym, Vec::new(), bool_ty) }
     }
 }
@@ -551,6 +555,18 @@ impl<'r> Gen<'r> {
     }
 }
 
+fn ast_ctor_names(t: &ast::AstType<Symbol>, out: &mut Vec<String>) {
+    match &**t {
+        Type::Forall(_, inner) => ast_ctor_names(inner, out),
+        Type::Variant(row) => {
+            for f in gluon_base::types::row_iter(row) {
+                out.push(f.name.value.declared_name().to_string());
+            }
+        }
+        _ => {}
+    }
+}
+
 fn balanced_outer(s: &str, open: char, close: char) -> bool {
     // does the first `open` match the last character?
     let mut depth = 0i32;
@@ -623,6 +639,14 @@ const P_BIND: u32 = 12;
 const P_OPQLEAF: u32 = 13;
 const P_ANCHOR: u32 = 14;
 const P_OP: u32 = 15;
+const B_LET: u32 = 1;
+const B_LET_REC: u32 = 2;
+const B_LET_ARG: u32 = 3;
+const B_LAMBDA_ARG: u32 = 4;
+const B_ALT: u32 = 5;
+const B_TYPE: u32 = 6;
+const B_CTOR: u32 = 7;
+const B_DO: u32 = 8;
 const V_EXPR: u32 = 0;
 const V_PATTERN: u32 = 1;
 const V_IDENT: u32 = 2;
@@ -637,7 +661,7 @@ struct TNode {
     e: u32,
     kind: u32,
     lab: u32,
-    binders: Vec<(u32, u32, u32)>,
+    binders: Vec<(u32, u32, u32, u32)>, // name, sort, scope start, scope end
     children: Vec<TNode>,
 }
 impl TNode {
@@ -648,7 +672,7 @@ impl TNode {
         use std::fmt::Write;
         write!(out, "( {} {} {} {} {}", self.s, self.e, self.kind, self.lab, self.binders.len()).unwrap();
         for b in &self.binders {
-            write!(out, " {} {} {}", b.0, b.1, b.2).unwrap();
+            write!(out, " {} {} {} {}", b.0, b.1, b.2, b.3).unwrap();
         }
         for c in &self.children {
             out.push(' ');
@@ -835,7 +859,7 @@ impl<'a> Exporter<'a> {
                     self.pat_names(&alt.pattern, &mut names);
                     let sc_end = self.nts(alt.expr.span.end().0);
                     for nm in names {
-                        g.binders.push((nm, alt.pattern.span.start().0, sc_end));
+                        g.binders.push((nm, B_ALT, alt.pattern.span.start().0, sc_end));
                     }
                     g.children.push(self.pat(&alt.pattern));
                     g.children.push(self.expr(&alt.expr, false));
@@ -867,7 +891,7 @@ impl<'a> Exporter<'a> {
                         let lab = self.ty_lab(&a.name.value.typ);
                         g.children.push(TNode::new(a.name.span, kind(P_LEAF, false, false, V_IDENT), lab));
                         let nm = self.names.id(a.name.value.name.declared_name());
-                        g.binders.push((nm, first_arg.unwrap(), sc_end));
+                        g.binders.push((nm, B_LET_ARG, first_arg.unwrap(), sc_end));
                     }
                     if let Some(t) = &b.typ {
                         g.children.push(self.ty_node(t.span()));
@@ -877,7 +901,7 @@ impl<'a> Exporter<'a> {
                 }
                 let sc_start = if bindings.is_recursive() { e.span.start().0 } else { last_end + 1 };
                 for nm in names {
-                    n.binders.push((nm, sc_start, ext));
+                    n.binders.push((nm, if bindings.is_recursive() { B_LET_REC } else { B_LET }, sc_start, ext));
                 }
                 n.children.push(self.expr(body, false));
                 n
@@ -891,14 +915,13 @@ impl<'a> Exporter<'a> {
                     g.children.push(self.ty_node(tb.alias.value.aliased_type().span()));
                     n.children.push(g);
                     let nm = self.names.id(tb.name.value.declared_name());
-                    n.binders.push((nm, e.span.start().0, ext));
+                    n.binders.push((nm, B_TYPE, e.span.start().0, ext));
                     // constructors of a variant type are values in scope (on_alias :206)
-                    let aliased = tb.alias.value.unresolved_type().remove_forall();
-                    if let Type::Variant(row) = &**aliased {
-                        for f in gluon_base::types::row_iter(row) {
-                            let nm = self.names.id(f.name.value.declared_name());
-                            n.binders.push((nm, e.span.start().0, ext));
-                        }
+                    let mut ctors = vec![];
+                    ast_ctor_names(tb.alias.value.aliased_type(), &mut ctors);
+                    for c in ctors {
+                        let nm = self.names.id(&c);
+                        n.binders.push((nm, B_CTOR, e.span.start().0, ext));
                     }
                 }
                 n.children.push(self.expr(body, false));
@@ -969,7 +992,7 @@ impl<'a> Exporter<'a> {
                     let lab = self.ty_lab(&a.name.value.typ);
                     n.children.push(TNode::new(a.name.span, kind(P_LEAF, false, false, V_IDENT), lab));
                     let nm = self.names.id(a.name.value.name.declared_name());
-                    n.binders.push((nm, first_arg.unwrap(), sc_end));
+                    n.binders.push((nm, B_LAMBDA_ARG, first_arg.unwrap(), sc_end));
                 }
                 n.children.push(self.expr(l.body, false));
                 n
@@ -992,7 +1015,7 @@ impl<'a> Exporter<'a> {
                     self.pat_names(id, &mut names);
                     let ext = self.nts(e.span.end().0);
                     for nm in names {
-                        n.binders.push((nm, d.body.span.start().0, ext));
+                        n.binders.push((nm, B_DO, d.body.span.start().0, ext));
                     }
                     n.children.push(self.pat(id));
                 }
@@ -1493,14 +1516,39 @@ fn main() {
     let mut pid = 0u64;
     let mut programs: Vec<(String, String)> = corpus().into_iter().map(|s| ("corpus".to_string(), s)).collect();
     let mut feat = Hist::default();
+    let maxlen: usize = args.extra.get("maxlen").and_then(|s| s.parse().ok()).unwrap_or(if args.thorough() { 200 } else { 150 });
     for _ in 0..nprog {
-        let mut g = Gen { rng: &mut rng, has_t: false, fresh: 0, feat: &mut feat };
-        programs.push(("generated".to_string(), g.program()));
+        // bounded size: the number of variants x offsets grows quadratically with the length
+        let mut tries = 0;
+        loop {
+            let mut f = Hist::default();
+            let text = {
+                let mut g = Gen { rng: &mut rng, has_t: false, fresh: 0, feat: &mut f };
+                g.program()
+            };
+            tries += 1;
+            if text.len() <= maxlen || tries > 200 {
+                if tries > 200 {
+                    eprintln!("generator: gave up bounding the size ({} bytes)", text.len());
+                }
+                for (k, v) in &f.0 {
+                    feat.addn(k, *v);
+                }
+                programs.push(("generated".to_string(), text));
+                break;
+            }
+        }
     }
     for (origin, text) in &programs {
         out.hist.add(&format!("origin:{}", origin));
         for (vname, vtext) in variants_of(text) {
+            let t0 = std::time::Instant::now();
             run_variant(&mut out, &mut symbols, &env, &vtext, pid, &vname, None, false);
+            let dt = t0.elapsed().as_millis();
+            if dt > 500 {
+                out.hist.add("slow-variant(>500ms)");
+                eprintln!("slow variant ({} ms) prog={} {} len={}: {}", dt, pid, vname, vtext.len(), esc(&vtext));
+            }
         }
         pid += 1;
         if pid % 200 == 0 {
